@@ -140,6 +140,54 @@ def _first_leaf(t):
     return None
 
 
+def c06_layers(verdict, seed):
+    """C06 above the primitives: every primal / auxiliary value a differential operator hands back (TraceOperators!Transparent) and the
+    value of every container program computed while it is differentiated (TraceContainers!Transparent) is the plain call's value"""
+    cfg = "CONSTANTS Export = %s\nSPECIFICATION Spec\nINVARIANT Identities\n"
+    e = vlib.tlc_must_pass(vlib.run_tlc("MCOperators", cfg=cfg % "TRUE", workers=1, timeout=3000, tag="MCOperators-export"), "operators export")
+    prim_ops = ("value_and_grad", "make_vjp", "make_jvp", "grad_and_aux", "make_hvp", "value_and_grad_tuple", "make_vjp_tuple")
+    cases = [p for p in e.printed if isinstance(p, dict) and p.get("op") in prim_ops]
+    for i, c in enumerate(cases):
+        c["id"] = i + 1
+    obs, files = vlib.parallel_replay("ops_replay.py", [{k: c[k] for k in ("id", "op", "ins", "outs", "lay", "scale")} for c in cases], nproc=14, tag="ops6")
+    accepted, g2, d2, _w, _inv = vlib.parallel_validate("TraceOperators", files, cfg="SPECIFICATION Spec\n", njvm=8, env={"PROP": "C06"})
+    states, trans = e.distinct + d2, e.generated + g2
+    for o in obs:
+        ok = bool(o["err"]) or o["extra_ok"]
+        if not vlib.reconcile("operator observation %d" % o["id"], o["id"] in accepted, ok):
+            verdict.violation({"op": o["op"], "ins": o["ins"], "outs": o["outs"], "layer": "operators"},
+                              {"reason": "the primal / auxiliary value handed back by %s is not the plain call's value (entries, shape, type)" % o["op"],
+                               "case": {k: o[k] for k in ("op", "ins", "outs", "lay", "scale")}})
+    cfgc = "CONSTANTS Depth = 1 Export = TRUE Pairs = TRUE\nSPECIFICATION Spec\nINVARIANT Laws\nINVARIANT GradSane\n"
+    e2 = vlib.tlc_must_pass(vlib.run_tlc("MCContainers", cfg=cfgc, workers=1, timeout=3000, tag="MCContainers"), "containers")
+    cs = [p for p in e2.printed if isinstance(p, dict) and "tree" in p]
+    rng = random.Random(seed)
+    strata = {}
+    for c in cs:
+        strata.setdefault((c["tree"]["k"], tuple(st["s"] for t in c["prog"] for st in t["acc"]), c["outmode"]), []).append(c)
+    cs = []
+    for k in sorted(strata, key=str):
+        rng.shuffle(strata[k])
+        cs += strata[k][:2]
+    for i, c in enumerate(cs):
+        c["id"] = i + 1
+        c["variant"] = i % 4
+    obs2, files2 = vlib.parallel_replay("cont_replay.py", cs, nproc=14, tag="cont6")
+    keep2 = [o for o in obs2 if not o["err"].startswith("skip:")]
+    for o in keep2:
+        o["jvp_want"] = "val:%d" % o["jvp_expected"]
+    d = vlib.subdir("judge-C06c")
+    jf = [vlib.write_ndjson(os.path.join(d, "o%d.ndjson" % k), part) for k, part in enumerate(vlib.chunks(keep2, 8))]
+    acc2, g3, d3, _w, _inv = vlib.parallel_validate("TraceContainers", jf, cfg="SPECIFICATION Spec\n", njvm=8, env={"PROP": "C06"})
+    for o in keep2:
+        ok = bool(o["err"]) or o.get("val_ok", True)
+        if not vlib.reconcile("container observation %d" % o["id"], o["id"] in acc2, ok):
+            verdict.violation({"tree_kind": o["tree"]["k"], "steps": sorted({st["s"] for t in o["prog"] for st in t["acc"]}), "layer": "containers"},
+                              {"reason": "the value of the container program computed while differentiating differs from the plain call's value",
+                               "tree": o["tree"], "prog": o["prog"], "outmode": o["outmode"]})
+    return {"states": states + e2.distinct + d3, "transitions": trans + e2.generated + g3, "operator_cases": len(obs), "container_cases": len(keep2)}
+
+
 def c16(tier, seed, replay=None):
     t0 = time.time()
     verdict = vlib.Verdict("C16")
@@ -156,7 +204,7 @@ def c16(tier, seed, replay=None):
     keep = [o for o in obs if not o["err"].startswith("skip:")]
     d = vlib.subdir("judge-C16")
     jfiles = [vlib.write_ndjson(os.path.join(d, "o%d.ndjson" % k), part) for k, part in enumerate(vlib.chunks(keep, 8))]
-    accepted, g2, d2, _w, _inv = vlib.parallel_validate("TraceOperators", jfiles, cfg="SPECIFICATION Spec\n", njvm=8)
+    accepted, g2, d2, _w, _inv = vlib.parallel_validate("TraceOperators", jfiles, cfg="SPECIFICATION Spec\n", njvm=8, env={"PROP": "C16"})
     states += d2
     trans += g2
     exp = {c["id"]: c for c in cases}
@@ -229,7 +277,7 @@ def c12(tier, seed, replay=None):
         o["jvp_want"] = "val:%d" % o["jvp_expected"]
     d = vlib.subdir("judge-C12")
     jfiles = [vlib.write_ndjson(os.path.join(d, "o%d.ndjson" % k), part) for k, part in enumerate(vlib.chunks(keep_obs, 8))]
-    accepted, g2, d2, _w, _inv = vlib.parallel_validate("TraceContainers", jfiles, cfg="SPECIFICATION Spec\n", njvm=8)
+    accepted, g2, d2, _w, _inv = vlib.parallel_validate("TraceContainers", jfiles, cfg="SPECIFICATION Spec\n", njvm=8, env={"PROP": "C12"})
     states += d2
     trans += g2
     exp = {c["id"]: c for c in cases}
@@ -251,6 +299,8 @@ def c12(tier, seed, replay=None):
                 why.append("unflatten(flatten(v)) != v")
             if not o["commute_ok"]:
                 why.append("grad(f o unflatten)(flatten x) != flatten(grad f(x))")
+            if not o.get("val_ok", True):
+                why.append("the value computed while differentiating differs from the plain call's value")
         if not vlib.reconcile("container observation %d %s" % (o["id"], why), o["id"] in accepted, not why) and not why:
             why = [vlib.UNNAMED]
         if why:
